@@ -201,6 +201,13 @@ func TestVerifC02(t *testing.T) {
 		dev := devBreadth
 		if i < nCollision {
 			dev = devCollision
+		} else if dev > 1 {
+			// the deeper bound is applied to breadth inputs whose bound-1 exploration is small
+			// (<= 400 executions); larger inputs stay at bound 1 (recorded per input in the classes)
+			probe := vsched.Explore(vsched.Config{MaxDev: 1}, func(x *vsched.Exec) string { return c02Observe(in, root) })
+			if probe.Execs > 400 {
+				dev = 1
+			}
 		}
 		var ident string
 		first := true
@@ -245,7 +252,7 @@ func TestVerifC02(t *testing.T) {
 				seen[l[:j]] = true
 			}
 		}
-		r.Class(fmt.Sprintf("%s outputs=%d", in.Name, len(res.Outcomes)), samePos || len(res.MapSites) >= 5)
+		r.Class(fmt.Sprintf("%s outputs=%d dev=%d", in.Name, len(res.Outcomes), dev), samePos || len(res.MapSites) >= 5)
 		if i%40 == 0 {
 			r.Sample(map[string]any{"input": in.Name, "executions": res.Execs, "map_sites_reached": len(res.MapSites), "distinct_outputs": len(res.Outcomes), "deviation_bound": dev})
 		}
@@ -457,8 +464,10 @@ func vExploreMap(r *vReport, name string, cfg vsched.Config, body func(x *vsched
 		cfg.Deadline = r.deadline
 	}
 	cfg.Check = check
-	r.Begin(func() string { return "map-order exploration of " + name })
-	res := vsched.Explore(cfg, body)
+	res := vsched.Explore(cfg, func(x *vsched.Exec) string {
+		r.Begin(func() string { return "map-order exploration of " + name + " (execution in progress)" })
+		return body(x)
+	})
 	if res.HarnessErr != "" {
 		r.HarnessError("%s: %s", name, vTrunc(res.HarnessErr, 1500))
 	}
